@@ -1,4 +1,4 @@
-"""Property -> rules registry."""
+"""Property -> rules registry, with the text that goes into evidence and MANIFEST (kept in one place)."""
 import r_ticket
 import r_m1
 import r_ovf
@@ -6,66 +6,251 @@ import r_state
 import r_fwd
 import r_live
 import r_own
+import r_type
+
+STD = "summaries of std functions (min/max/saturating_*, Option combinators, slice::get/index, Vec::split_off, " \
+      "IntoIter, Iterator adaptors) are trusted as documented"
+HEAP = "fields written through a pointer (chunk-iterator cursor, re-wrapped vector) are read flow-insensitively; the rules " \
+       "that depend on their writers enumerate the writers explicitly"
 
 PROPS = {
-    "C17": {
-        "rules": [r_own.rule_pre, r_own.rule_view, r_ovf.rule_ovf],
-        "floors": {},
-        "explanation": "tbd",
+    "C01": {
+        "title": "exactly-once delivery",
+        "rules": [r_m1.rule_atom, r_m1.rule_one, r_m1.rule_prov, r_m1.rule_amt, r_m1.rule_clamp, r_m1.rule_endguard,
+                  r_m1.rule_complete, r_ticket.rule_ticket, r_ticket.rule_gate, r_live.rule_amt_pub, r_m1.rule_exact],
+        "explanation": "Decides that the code is an instance of the fetch_add-interval protocol (DESIGN 1.2, M1/M2): for every "
+                       "world (5 implementors + 4 adaptor instantiations) x every pull unit (single, one-shot chunk, buffered) "
+                       "the unit is evaluated with crate-local callees inlined; rules: ATOM (who may write the counters; no "
+                       "index from a counter load), ONE (exactly one reservation RMW, outside any loop), PROV (reported and "
+                       "accessed indices are the reserved index, no arithmetic), AMT (extent min(begin+n, LEN) uses the reserved "
+                       "n), CLAMP (accesses in bounds by guard facts), ENDGUARD/COMPLETE (Some only under idx < LEN; None only "
+                       "under idx >= LEN; extent clamped to exactly LEN: nothing reserved is lost), TICKET/GATE/AMT.pub "
+                       "(wrapped iterator touched only inside a held region entered on ticket == now-serving and gated by the "
+                       "end flag; the now-serving counter advanced by the reservation), EXACT (buffered chunk of the wrapper "
+                       "yields exactly the slots filled by this pull). Discharged = entailed by dominating guard facts / "
+                       "structural identity of terms.",
+        "declined": "the quantification over interleavings is discharged by the argument of DESIGN 1.2 (RMWs on one atomic are "
+                    "totally ordered), not by exploring schedules; histories with counter wrap are outside the property",
+        "technique": "static analysis: MIR dataflow + guard-fact entailment over inlined pull units (rustc_private driver)",
     },
-    "C08": {
-        "rules": [r_own.rule_own, r_own.rule_view, r_m1.rule_prov, r_m1.rule_clamp, r_state.rule_seq, r_ovf.rule_ovf],
-        "floors": {},
-        "explanation": "tbd",
-    },
-    "C15": {
-        "rules": [r_own.rule_leak],
-        "floors": {},
-        "explanation": "tbd",
-    },
-    "C09": {
-        "rules": [r_live.rule_live, r_live.rule_amt_pub],
-        "floors": {},
-        "explanation": "tbd",
-    },
-    "C18": {
-        "rules": [r_live.rule_unw],
-        "floors": {},
-        "explanation": "tbd",
-    },
-    "C12": {
-        "rules": [r_fwd.rule_each, r_ovf.rule_zero],
-        "floors": {},
-        "explanation": "tbd",
-    },
-    "C13": {
-        "rules": [r_fwd.rule_fwd],
-        "floors": {},
-        "explanation": "tbd",
-    },
-    "C06": {
-        "rules": [r_state.rule_skip, r_state.rule_seq, r_state.rule_len, r_state.rule_done],
-        "floors": {},
-        "explanation": "tbd",
+    "C02": {
+        "title": "index fidelity",
+        "rules": [r_m1.rule_prov, r_m1.rule_atom, r_live.rule_amt_pub, r_m1.rule_exact, r_fwd.rule_each, r_fwd.rule_fwd],
+        "explanation": "PROV: every Next.idx / NextChunk.begin_idx and every storage access index is the reservation result "
+                       "itself (for ranges: begin + start, the one permitted addition); ATOM.c: no index from a counter load; "
+                       "AMT.pub: the ticket implementor advances now-serving by its full reservation (ticket == position); "
+                       "EXACT: buffered chunks of the wrapper yield exactly this pull's slots in order; EACH.index: "
+                       "enumerate_for_each passes (next.idx, next.value) / (chunk.begin_idx + i, value) with (i, value) from "
+                       "chunk.values.enumerate(); FWD: adaptors rebuild chunks with the inner begin_idx.",
+        "declined": "equality of contents with a sequential run (trusts slice::get, Range, the wrapped iterator)",
+        "technique": "static analysis: term provenance over inlined MIR (no arithmetic between reservation and index)",
     },
     "C03": {
-        "rules": [r_m1.rule_clamp, r_m1.rule_amt, r_m1.rule_prov, r_m1.rule_nonempty, r_m1.rule_exact, r_ovf.rule_ovf],
-        "floors": {},
-        "explanation": "tbd",
+        "title": "chunk contract",
+        "rules": [r_m1.rule_clamp, r_m1.rule_amt, r_m1.rule_prov, r_m1.rule_nonempty, r_m1.rule_exact, r_m1.rule_complete,
+                  r_ovf.rule_ovf, r_ovf.rule_zero],
+        "explanation": "CLAMP/AMT: a chunk is [begin, min(begin+n, LEN)) built from the reserved n; COMPLETE: clamped to exactly "
+                       "LEN, so it is shorter than n only at the end; NONEMPTY: Some only under begin < end of the very extent "
+                       "handed out; EXACT: the wrapper's buffered chunk announces filled - consumed and yields exactly that, "
+                       "also after a partly consumed previous chunk; OVF: begin+n cannot overflow into an empty/wrapped extent; "
+                       "ZERO: chunk size >= 1 where the buffered forms rely on it.",
+        "declined": "nothing beyond trusting std chunk iterators (slice::Iter, Map<Range>) to be exact-size",
+        "technique": "static analysis: guard-fact entailment on chunk extents; struct-invariant by writer enumeration",
     },
-    "C16": {
-        "rules": [r_ovf.rule_ovf, r_ovf.rule_zero],
-        "floors": {},
-        "explanation": "tbd",
+    "C04": {
+        "title": "one linearizable cursor",
+        "rules": [r_m1.rule_one, r_m1.rule_prov, r_m1.rule_atom, r_ticket.rule_ticket, r_ticket.rule_gate, r_live.rule_amt_pub],
+        "explanation": "The structural content of linearizability: each pull has exactly one RMW on the position counter inside "
+                       "the call (ONE), what it delivers is a function of that RMW's result only (PROV), the counter only grows "
+                       "on pull paths and is never stored to by pulls (ATOM), the wrapper serves tickets on equality only and "
+                       "advances by the reservation (TICKET, GATE, AMT.pub). Evidence names the linearisation point per unit.",
+        "declined": "real-time order of concurrent histories as an observable (implied by the RMW lying inside the call interval)",
+        "technique": "static analysis: unique-RMW-per-pull + provenance (shares rules with C01)",
     },
-    "C01": {
-        "rules": [r_m1.rule_atom, r_m1.rule_one, r_m1.rule_prov, r_m1.rule_amt, r_m1.rule_clamp, r_m1.rule_endguard, r_m1.rule_complete],
-        "floors": {},
-        "explanation": "tbd",
+    "C05": {
+        "title": "the end is permanent",
+        "rules": [r_m1.rule_atom, r_m1.rule_endguard, r_m1.rule_complete, r_ticket.rule_sticky, r_state.rule_done,
+                  r_ticket.rule_gate, r_state.rule_len],
+        "explanation": "ATOM.b: no pull stores to the position counter (it only grows); ENDGUARD: Some only under reserved idx < "
+                       "LEN on the index itself with LEN immutable; STICKY: the end flag is only ever stored true; DONE-SET: "
+                       "whenever the wrapped iterator returned None the flag is set before the pull returns (the exhausted "
+                       "iterator is never polled again); GATE: admissions are gated by the flag; LEN: length queries answer 0 "
+                       "once the flag is set and LEN - counter otherwise.",
+        "declined": "behaviour after counter wrap (excluded by the property's quantifier)",
+        "technique": "static analysis: writers table of the counters + must-pass-through on None edges",
+    },
+    "C06": {
+        "title": "skip_to_end",
+        "rules": [r_state.rule_skip, r_ticket.rule_sticky, r_ticket.rule_gate, r_state.rule_len, r_state.rule_seq,
+                  r_own.rule_own, r_m1.rule_endguard],
+        "explanation": "SKIP: early_exit stores a value >= LEN (borrowing sources), reserves >= LEN positions with one RMW "
+                       "(consuming sources: OWN.d, the skipped interval is dropped exactly once), or sets the sticky flag "
+                       "(wrapper) with every admission gated on it (GATE) so a wrapped counter cannot re-admit; all 7 "
+                       "skip_to_end reach early_exit of the same object (SKIP.fwd); has_more/try_get_len answer No/0 (LEN); "
+                       "into_seq_iter stays well-formed after a skip (SEQ clamp).",
+        "declined": "-",
+        "technique": "static analysis: entailment v >= LEN on the stored/reserved term; gate dominance",
     },
     "C07": {
-        "rules": [r_ticket.rule_ticket, r_ticket.rule_gate, r_ticket.rule_ord, r_ticket.rule_sticky, r_ticket.rule_cell],
-        "floors": {},
-        "explanation": "tbd",
+        "title": "exclusive, ordered use of the wrapped iterator; no data races",
+        "rules": [r_ticket.rule_ticket, r_ticket.rule_gate, r_ticket.rule_ord, r_ticket.rule_sticky, r_ticket.rule_cell,
+                  r_live.rule_amt_pub],
+        "explanation": "ORD: the load that admits a ticket holder is Acquire or stronger, every RMW that publishes is Release or "
+                       "stronger (constants read from the resolved atomic calls through their wrappers), no use of the wrapped "
+                       "iterator after the release; TICKET/GATE: the cell is touched only inside a held region entered through "
+                       "the Equal edge of ticket == now-serving and the end flag false; CELL.d: no `&mut` reborrow of storage "
+                       "behind an UnsafeCell in a function that can run concurrently, outside a held region; CELL.e: no user "
+                       "callable besides the wrapped next() runs inside a held region.",
+        "declined": "-",
+        "technique": "static analysis: ordering constants + held-region (typestate) analysis on MIR",
+    },
+    "C08": {
+        "title": "moved out or dropped exactly once",
+        "rules": [r_own.rule_own, r_own.rule_view, r_m1.rule_prov, r_m1.rule_clamp, r_m1.rule_amt, r_state.rule_seq,
+                  r_ovf.rule_ovf, r_m1.rule_one],
+        "explanation": "OWN.a: raw element reads are the single move-out (index = reserved index < LEN) and the exclusive "
+                       "remainder read over [split, LEN); OWN.b/OWN.view: owning views over reserved elements are handed on, "
+                       "never dropped in place, yield each element once and drop the rest; OWN.c: Drop splits at the counter "
+                       "(one read, no arithmetic, guarded/clamped) and skips only when counter > LEN; OWN.d: no blind store to "
+                       "the counter of a consuming iterator, early_exit drops exactly [reserved, LEN); OWN.e: a non-destructive "
+                       "remainder split is followed by marking the iterator exhausted; plus PROV/CLAMP/AMT/SEQ/OVF on the "
+                       "consuming worlds.",
+        "declined": "counting destructor runs; correctness of Vec::split_off / collect (trusted)",
+        "technique": "static analysis: ownership ledger over MIR (elaborated drops, alias owners, writers of the counter)",
+    },
+    "C09": {
+        "title": "progress",
+        "rules": [r_live.rule_live, r_live.rule_amt_pub, r_ticket.rule_gate, r_state.rule_done],
+        "explanation": "LIVE.a: no function reachable from a pull of a known-size source contains a loop on an atomic load or a "
+                       "blocking std call (complete decision of 'never waits'); LIVE.b: wait loops of the wrapper re-read "
+                       "now-serving and exit on Equal, Less and the end flag; LIVE.c: from every admission every normal path to "
+                       "a return releases (RMW on now-serving or end flag); LIVE.d: an admitted ticket is always continued; "
+                       "LIVE.e: a reserved ticket is never abandoned (None only when passed / flag set / after admission); "
+                       "AMT.pub: the release is by the full reservation.",
+        "declined": "liveness under a real (fair) scheduler as such",
+        "technique": "static analysis: loop/SCC analysis with atomic-load dependence; must-pass-through on the CFG",
+    },
+    "C10": {
+        "title": "into_seq_iter returns the remainder",
+        "rules": [r_state.rule_seq, r_own.rule_own, r_fwd.rule_fwd, r_ovf.rule_ovf],
+        "explanation": "SEQ: the result of each of the 7 into_seq_iter depends on exactly one read of the position counter, used "
+                       "as skip count / split index / range offset without arithmetic, clamped to LEN where overshoot is not "
+                       "tolerated; the wrapper returns the wrapped iterator itself; adaptors map the inner result by "
+                       "clone/copy (FWD); OWN.c/OWN.e: the consuming variants split off exactly the remainder and leave "
+                       "nothing for Drop; OVF: the range offset cannot overflow.",
+        "declined": "-",
+        "technique": "static analysis: dependence of the result term on one counter read; ancestor walk for arithmetic",
+    },
+    "C11": {
+        "title": "try_get_len / has_more",
+        "rules": [r_state.rule_len, r_state.rule_done, r_ticket.rule_sticky, r_m1.rule_atom, r_ovf.rule_ovf, r_ovf.rule_zero],
+        "explanation": "LEN: try_get_len is LEN - counter under counter < LEN else 0 for the four known-size sources; the "
+                       "wrapper answers 0 once the end flag is set, else captured-exact-length - counter; the length is "
+                       "captured only when lower == upper; has_more maps None/Some(0)/Some(n) to Maybe/No/Yes(n) and is not "
+                       "overridden; DONE-EVID: the flag is set only on evidence (early_exit, None from the wrapped iterator, "
+                       "fewer elements than requested with n != 0, panic guard); DONE-SET/STICKY: once set it stays; OVF: "
+                       "reservation amounts bounded by LEN so the counter (hence the reported length) cannot wrap back.",
+        "declined": "'never increases under races' beyond: counter monotone, flag sticky",
+        "technique": "static analysis: shape of the length term + evidence facts at every flag store",
+    },
+    "C12": {
+        "title": "for_each / enumerate_for_each / fold",
+        "rules": [r_fwd.rule_each, r_ovf.rule_zero, r_ovf.rule_ovf, r_m1.rule_one, r_ticket.rule_ord],
+        "explanation": "EACH: the three trait defaults pass their arguments unchanged to the algorithms and no implementor "
+                       "overrides them; in each algorithm chunk_size > 0 is asserted first (ZERO.a); the single-pull loop and "
+                       "the buffered loop exit only on the None of the pull made in that iteration; every Some payload reaches "
+                       "exactly one call of the user's function on every path (directly, via Iterator::for_each, or an inner "
+                       "loop whose own exit is the chunk's None); indices are the pulled indices; fold threads one accumulator. "
+                       "Exhaustion and exactly-once of the pulls themselves: rules of C01 (ONE, OVF amounts, ORD included here).",
+        "declined": "the algebraic statement about combining fold results (depends on the user's operation)",
+        "technique": "static analysis: natural-loop exit edges + must-pass-through of the closure call",
+    },
+    "C13": {
+        "title": "cloned()/copied() are transparent",
+        "rules": [r_fwd.rule_fwd],
+        "explanation": "FWD: every method of Cloned/Copied and of their chunk pullers forwards to the same-named method of the one "
+                       "inner iterator (Self-dispatch for next_id_and_value/next_chunk/skip_to_end), with parameters passed "
+                       "positionally unchanged, and maps the result only by Option/Iterator::cloned|copied or a rebuilt "
+                       "NextChunk with the inner begin_idx; the adaptor structs have no state besides the inner iterator; no "
+                       "unsafe operation; the two adaptors agree method by method (FWD.iso).",
+        "declined": "-",
+        "technique": "static analysis: forwarding shape of result terms; sibling isomorphism",
+    },
+    "C14": {
+        "title": "type-level safety",
+        "rules": [r_type.rule_type, r_type.rule_surface, r_type.rule_wit_for("C14")],
+        "explanation": "TYPE: for each of the unsafe impl Send/Sync, each field (looking through UnsafeCell/ManuallyDrop/raw "
+                       "pointers) is Send/Sync under the impl's own predicates, asked of the compiler's trait solver; supertrait "
+                       "and Item bounds of the public traits; SURFACE: no safe public function lets the caller choose the "
+                       "index/ticket of a raw element access, no safe public mutator of a position counter is reachable; WIT: "
+                       "13 client programs that must be rejected with a given error code on a marked line, each with a "
+                       "compiling twin, compiled against the freshly built crate with the stable toolchain.",
+        "declined": "-",
+        "technique": "static analysis: trait-solver audit + public-surface reachability + compile-fail witnesses with twins",
+    },
+    "C15": {
+        "title": "no leaks",
+        "rules": [r_own.rule_leak, r_own.rule_own, r_own.rule_view],
+        "explanation": "LEAK: every ManuallyDrop field owning heap memory is taken and dropped on every normal path of Drop::drop "
+                       "(no re-wrap, no forget); leak primitives (mem::forget, Box::leak, into_raw*, ManuallyDrop::new) occur "
+                       "only in constructors wrapping the consumed collection and in the exclusive remainder split's re-wrap; "
+                       "OWN.c/d/e + OWN.view: every element not delivered is dropped by Drop, by early_exit or by the chunk "
+                       "view (conservation).",
+        "declined": "byte accounting and 'memory does not grow' as measurements",
+        "technique": "static analysis: ManuallyDrop typestate on Drop paths + leak-primitive who-may-call table",
+    },
+    "C16": {
+        "title": "boundary arithmetic",
+        "rules": [r_ovf.rule_ovf, r_ovf.rule_zero, r_state.rule_seq, r_m1.rule_endguard, r_m1.rule_nonempty],
+        "explanation": "OVF: every +, -, * on usize, every generic Idx addition and every fetch_add amount in non-test code is a "
+                       "site; a site is violated when an unbounded operand (public chunk-size parameter, puller chunk size) "
+                       "reaches it unclamped or the amount is not bounded by LEN, discharged when guard facts entail no "
+                       "overflow/underflow (x<y => x+1, x <= e-s => x+s, struct invariant consumed <= filled); ZERO: chunk "
+                       "size 0 panics where documented and is state-neutral for one-shot chunks; ENDGUARD on the index (not "
+                       "on a wrapping value); SEQ range offset clamped.",
+        "declined": "numerical results; a range longer than usize::MAX - (number of overshooting pulls) leaves the counter no "
+                    "headroom (inherent to a fetch_add cursor; documented in DESIGN.md)",
+        "technique": "static analysis: taint + guard-fact entailment on every arithmetic site of the MIR",
+    },
+    "C17": {
+        "title": "debug = release; std preconditions",
+        "rules": [r_own.rule_pre, r_own.rule_view, r_ovf.rule_ovf],
+        "explanation": "The profile-sensitive constructs are enumerated from MIR: overflow asserts (OVF: each discharged, so "
+                       "checked and unchecked builds agree), debug_assert! conditions (PRE.dbg: entailed at every call site), "
+                       "calls of unsafe std functions with preconditions checked only in debug builds of std (PRE: per-callee "
+                       "rule — from_raw_parts len <= cap, ptr.add offset <= LEN, read index < LEN, write to local MaybeUninit, "
+                       "assume_init after write, ManuallyDrop::take slot not reused, drop_in_place on an owned interval, "
+                       "set_len(0); an unsafe callee without a rule fails closed). Thorough: all four "
+                       "overflow-checks x debug-assertions configurations must give the same verdicts.",
+        "declined": "equality of all observable results in general",
+        "technique": "static analysis: enumeration of profile-sensitive MIR constructs, each discharged by entailment",
+    },
+    "C18": {
+        "title": "panic containment",
+        "rules": [r_live.rule_unw, r_ticket.rule_cell, r_ticket.rule_gate, r_own.rule_view],
+        "explanation": "UNW: every terminator that can unwind inside a held region (calls not on the cannot-unwind table, drops "
+                       "of user values, overflow asserts) has a cleanup path that drops a guard whose Drop sets the end flag, "
+                       "and the guard is alive there; with GATE and the waiters' flag check this releases everyone; CELL.e: no "
+                       "user callable besides the wrapped next() runs while the ticket is held (closures of for_each/fold and "
+                       "Clone::clone run after the pull returned); OWN.view: chunk views drop their unconsumed part when "
+                       "unwound (RAII).",
+        "declined": "observing the hang",
+        "technique": "static analysis: unwind-edge must-release analysis on MIR cleanup paths",
+    },
+    "C19": {
+        "title": "non-consuming iteration; independence",
+        "rules": [r_type.rule_ind, r_type.rule_wit_for("C19")],
+        "explanation": "IND: the borrowing iterators (slice, range) and their pullers contain no unsafe operation and no interior "
+                       "mutability but the counter they own by value; each con_iter() wraps the collection's own slice / a copy "
+                       "of the range bounds (no element copy); Clone builds a fresh counter from the value of the old one; a "
+                       "positive control shows the detector sees UnsafeCell storage; WIT: references cannot outlive the "
+                       "collection, the collection cannot be mutated while borrowed, and is fully usable afterwards; clones "
+                       "and separate iterators are independent values.",
+        "declined": "pointer identity at run time (implied by: the stored slice is the argument; elements are reached through "
+                    "get/index on it)",
+        "technique": "static analysis: absence-of-unsafe/interior-mutability audit + compile witnesses",
     },
 }
+
+for _p in PROPS.values():
+    _p.setdefault("assumptions", [STD, HEAP])
